@@ -30,6 +30,13 @@
 #include <AIToolbox/Factored/Bandit/Algorithms/Utils/GraphUtils.hpp>
 #include <AIToolbox/Factored/Bandit/Algorithms/Utils/MaxPlus.hpp>
 #include <AIToolbox/Factored/Bandit/Algorithms/Utils/LocalSearch.hpp>
+#include <AIToolbox/Factored/Bandit/Algorithms/Utils/ReusingIterativeLocalSearch.hpp>
+#include <AIToolbox/Factored/Bandit/Algorithms/Utils/MultiObjectiveVariableElimination.hpp>
+#include <AIToolbox/POMDP/Algorithms/GapMin.hpp>
+#include <AIToolbox/Verif/Hooks.hpp>
+#include <AIToolbox/MDP/Algorithms/QLearning.hpp>
+#include <AIToolbox/MDP/Algorithms/SARSAL.hpp>
+#include <AIToolbox/MDP/Algorithms/PrioritizedSweeping.hpp>
 #include <AIToolbox/Utils/Probability.hpp>
 
 using namespace verif;
@@ -159,6 +166,63 @@ static std::vector<Subject> subjects() {
         auto [sp, rules] = mk(ps, 0); if (mode == 2) { auto g2 = FB::MakeGraph<FB::VariableElimination>()(rules, sp); FB::UpdateGraph<FB::VariableElimination>()(g2, rules, sp); ve(sp, g2); }
         auto g = FB::MakeGraph<FB::VariableElimination>()(rules, sp); FB::UpdateGraph<FB::VariableElimination>()(g, rules, sp); auto [act, val] = ve(sp, g);
         Out o; o.push_back(val); for (auto a : act) o.push_back((double)a); return o; }});
+    // --- factored maximisers (approximate ones are seeded from the Seeder at construction)
+    auto mkRules = [](uint64_t seed, int extra) {
+        namespace FB = A::Factored::Bandit;
+        Rng r(seed); size_t n = 2 + r.below(3) + extra; A::Factored::Action space(n);
+        for (auto & d : space) d = 1 + r.below(3);
+        std::vector<FB::QFunctionRule> rules;
+        size_t nr = 2 + r.below(5);
+        for (size_t i = 0; i < nr; ++i) {
+            A::Factored::PartialAction pa;
+            for (size_t k = 0; k < n; ++k) if (r.coin()) { pa.first.push_back(k); pa.second.push_back(r.below(space[k])); }
+            if (pa.first.empty()) { pa.first.push_back(0); pa.second.push_back(r.below(space[0])); }
+            rules.push_back({pa, (double)r.range(0, 16) / 4.0});
+        }
+        return std::make_pair(space, rules);
+    };
+    v.push_back({"MaxPlus", false, [mkRules](uint64_t ps, int) {
+        namespace FB = A::Factored::Bandit; FB::MaxPlus mp(5);
+        auto [sp, rules] = mkRules(ps, 0); auto g = FB::MakeGraph<FB::MaxPlus>()(rules, sp); FB::UpdateGraph<FB::MaxPlus>()(g, rules, sp);
+        auto [act, val] = mp(sp, g); Out o; o.push_back(val); for (auto a : act) o.push_back((double)a); return o; }});
+    v.push_back({"LocalSearch", false, [mkRules](uint64_t ps, int) {
+        namespace FB = A::Factored::Bandit; FB::LocalSearch ls;
+        auto [sp, rules] = mkRules(ps, 0); auto g = FB::MakeGraph<FB::LocalSearch>()(rules, sp); FB::UpdateGraph<FB::LocalSearch>()(g, rules, sp);
+        auto [act, val] = ls(sp, g); Out o; o.push_back(val); for (auto a : act) o.push_back((double)a); return o; }});
+    v.push_back({"ReusingIterativeLocalSearch", false, [mkRules](uint64_t ps, int) {
+        namespace FB = A::Factored::Bandit; FB::ReusingIterativeLocalSearch rils(0.3, 0.1, 6, true);
+        auto [sp, rules] = mkRules(ps, 0); auto g = FB::MakeGraph<FB::ReusingIterativeLocalSearch>()(rules, sp); FB::UpdateGraph<FB::ReusingIterativeLocalSearch>()(g, rules, sp);
+        auto [act, val] = rils(sp, g); auto [act2, val2] = rils(sp, g);
+        Out o; o.push_back(val); for (auto a : act) o.push_back((double)a); o.push_back(val2); for (auto a : act2) o.push_back((double)a); return o; }});
+    // --- anytime POMDP solvers through the iteration-budget hook (deterministic)
+    v.push_back({"SARSOP(budget)", true, [](uint64_t ps, int mode) {
+        A::POMDP::SARSOP s(0.01, 0.1);
+        A::Verif::anytimeObserver = [](const A::Verif::AnytimeSnapshot & sn) { return sn.iteration < 6; };
+        auto run = [&](uint64_t seed, int extra) { auto p = pomdpOf(seed, extra); auto m = toDense(p); A::Vector b = A::Vector::Constant(p.S, 1.0 / p.S); return s(m, b); };
+        if (mode == 1) run(ps ^ 0xABCDEF, 1);
+        if (mode == 2) run(ps, 0);
+        auto [lb, ub, vl, q] = run(ps, 0);
+        A::Verif::anytimeObserver = nullptr;
+        Out o; o.push_back(lb); o.push_back(ub); flat(o, vl); flat(o, q); return o; }});
+    v.push_back({"GapMin(budget)", true, [](uint64_t ps, int mode) {
+        A::POMDP::GapMin s(0.01, 3);
+        A::Verif::anytimeObserver = [](const A::Verif::AnytimeSnapshot & sn) { return sn.iteration < 3; };
+        auto run = [&](uint64_t seed, int extra) { auto p = pomdpOf(seed, extra); auto m = toDense(p); A::Vector b = A::Vector::Constant(p.S, 1.0 / p.S); return s(m, b); };
+        if (mode == 1) run(ps ^ 0xABCDEF, 1);
+        if (mode == 2) run(ps, 0);
+        auto [lb, ub, vl, q] = run(ps, 0);
+        A::Verif::anytimeObserver = nullptr;
+        Out o; o.push_back(lb); o.push_back(ub); flat(o, vl); flat(o, q); return o; }});
+    // --- learners on a fixed experience stream (deterministic functions of the stream)
+    v.push_back({"QLearning+SARSAL+PrioritizedSweeping", true, [](uint64_t ps, int mode) {
+        auto t = mdpOf(ps); auto m = toDense(t);
+        A::MDP::QLearning ql(t.S, t.A, t.discount, 0.5); A::MDP::SARSAL sl(t.S, t.A, t.discount, 0.5, 0.5, 0.001);
+        A::MDP::PrioritizedSweeping<decltype(m)> psw(m, 0.001, 20);
+        auto feed = [&](uint64_t seed, int n) { Rng r(seed); size_t s = 0, a = 0; for (int i = 0; i < n; ++i) {
+            size_t s1 = r.below(t.S), a1 = r.below(t.A); double rew = dyadicReward(r);
+            ql.stepUpdateQ(s, a, s1, rew); sl.stepUpdateQ(s, a, s1, a1, rew); psw.stepUpdateQ(s, a); psw.batchUpdateQ(); s = s1; a = a1; } };
+        (void)mode; feed(ps ^ 17, 40);
+        Out o; flat(o, ql.getQFunction()); flat(o, sl.getQFunction()); flat(o, psw.getQFunction()); return o; }});
     // SARSOP is not a subject here: under ASan it does not finish within the per-case budget (and does not converge at all on
     // several small problems, see DESIGN §12); its anytime loop is exercised by C03 through the iteration-budget hook.
     return v;
